@@ -152,10 +152,20 @@ def generate(rng, tier):
                 lines.append('get %d %d' % (j, doc_id)); lines.append('read %d' % j)
             for j in range(n): lines.append('clearfail %d' % j); lines.append('reach %d' % j)
         lines.append('end'); cases.append(lines); idx += 1
+    # the write path WITH the selector and its cache, on real nodes (full stack): node 1 writes at Consistency::All all the time
+    # while node 3 joins; every write issued after node 1 was told of node 3 and acknowledged must be on node 3 at once
+    # (C06d: the replicas of a write are the selection for the membership of the moment)
+    for _ in range(dict(quick=2, thorough=12, search=3)[tier]):
+        cases.append(['case %d full' % idx, 'joinwrite', 'end']); idx += 1
     return cases
 
 
 def canon(line, out):
+    if line == 'joinwrite':
+        if out.startswith('full not-started'): return 'full ok'       # the cluster did not form: inconclusive
+        if out.startswith('full join_seen='):
+            d = dict(x.split('=') for x in out.split()[1:])
+            return 'full ok' if (d['join_seen'] == 'false' or d['missing'] == '0') else 'full UNSAFE ' + out
     if line.startswith('dist-put'): return out.split(' ts=')[0]
     return 'x' if line.startswith('sel ') else out
 
@@ -168,6 +178,8 @@ def oracle(case, impl):
         t = line.split()
         if out.startswith(('crash', 'panic', 'timeout')):
             bad.append('%s: %s' % (line, out))
+        if line == 'joinwrite' and canon(line, out) != 'full ok':
+            bad.append('writes at Consistency::All returned Ok although a live member node 1 had been told of did not hold them (%s)' % out)
         if t[0] == 'dist-put' and out.startswith('recv'):
             # replicated later: every member whose storage answers must hold the write after the batch tick
             silent = {int(l.split()[1]) for l in case[:i] if l.startswith('hangnext')}
@@ -261,7 +273,7 @@ def oracle(case, impl):
 
 
 def nontrivial(case, impl):
-    return any(o.startswith('consistency') and not o.startswith('consistency 0/') for o in impl) or any(l.startswith(('failnext', 'unreach', 'hangnext')) for l in case)
+    return any(o.startswith('consistency') and not o.startswith('consistency 0/') for o in impl) or any(l.startswith(('failnext', 'unreach', 'hangnext', 'joinwrite')) for l in case)
 
 
 def stats(verdicts):
